@@ -63,3 +63,11 @@ SPECS += [
     Spec(GROUP, "typed_int", "toy.py", "typed", [("cause", OPT(INT))]),
     Spec(GROUP, "typed_bytes", "toy.py", "typed", [("cause", BYTES)]),
 ]
+from translate_fn import ANY, REC, LIST
+SPECS += [
+    Spec(GROUP, "pdubase_mk", "toy.py", "PduBase.mk", [("data", BYTES)],
+         records={"PduBase": {"pfb": REC("PFB"), "did": OPT(INT)}, "PFB": {"fmt": INT, "nad": BOOL, "did": BOOL, "pni": INT}}),
+    Spec(GROUP, "batch3", "toy.py", "batch3", [("key", BYTES), ("data", BYTES), ("cfg", BYTES), ("step", INT)]),
+    Spec(GROUP, "anyret", "toy.py", "anyret", [("x", INT)], ret=ANY),
+]
+SMALL_INT = SMALL_INT + ("batch3",)
